@@ -1,6 +1,6 @@
 SPECIFICATION Spec
 CONSTANTS
-  MinS = {0, 1}
+  MinS = {1, 2}
   MaxS = {1, 2}
   QS = {1, 2}
   NReq = 3
